@@ -66,6 +66,22 @@ impl SubSocketBackend {
     }
 }
 
+impl SubSocketBackend {
+    /// The peer closed the connection `connection_id`: drop its send half, unless the
+    /// peer has reconnected under the same identity in the meantime.
+    async fn peer_closed(&self, peer_id: &PeerIdentity, connection_id: u64) {
+        let removed = self
+            .peers
+            .remove_if_async(peer_id, |peer| peer.connection_id == connection_id)
+            .await;
+        if removed.is_some() {
+            if let Some(monitor) = self.monitor().lock().as_mut() {
+                let _ = monitor.try_send(SocketEvent::Disconnected(peer_id.clone()));
+            }
+        }
+    }
+}
+
 impl SocketBackend for SubSocketBackend {
     fn socket_type(&self) -> SocketType {
         self.socket_type
@@ -87,6 +103,7 @@ impl SocketBackend for SubSocketBackend {
 #[async_trait]
 impl MultiPeerBackend for SubSocketBackend {
     async fn peer_connected(self: Arc<Self>, peer_id: &PeerIdentity, io: FramedIo) {
+        let connection_id = io.connection_id;
         let (recv_queue, mut send_queue) = io.into_parts();
 
         let _subs_change = self.subs_change.lock().await;
@@ -111,14 +128,22 @@ impl MultiPeerBackend for SubSocketBackend {
 
         if writable {
             self.peers
-                .upsert_async(peer_id.clone(), Peer { send_queue })
+                .upsert_async(
+                    peer_id.clone(),
+                    Peer {
+                        send_queue,
+                        connection_id,
+                    },
+                )
                 .await;
             self.round_robin.push(peer_id.clone());
         }
         match &self.fair_queue_inner {
             None => {}
             Some(inner) => {
-                inner.lock().insert(peer_id.clone(), recv_queue);
+                inner
+                    .lock()
+                    .insert_connection(peer_id.clone(), recv_queue, connection_id);
             }
         };
     }
@@ -229,6 +254,10 @@ impl Socket for SubSocket {
 impl SocketRecv for SubSocket {
     async fn recv(&mut self) -> ZmqResult<ZmqMessage> {
         loop {
+            // Release what is still held for peers whose connection has ended.
+            for (peer_id, connection_id) in self.fair_queue.take_closed() {
+                self.backend.peer_closed(&peer_id, connection_id).await;
+            }
             match self.fair_queue.next().await {
                 Some((_peer_id, Ok(Message::Message(message)))) => {
                     return Ok(message);
